@@ -4,8 +4,8 @@
  'functions': ['timer_manager_basic::plan(tim)', 'timer_manager_basic::plan(tim,start,interval)', 'timer_manager_basic::exec', 'timer_manager_basic::empty',
                'timer_manager_basic::minimal_interval', 'timer_head_basic::is_planned', 'timer_head_basic::unplan'],
  'extract': ['units/C01/cxx_dlist_extract.py', 'units/C16/manager_extract.py'],
- 'unwind': 5, 'params': {'OP': [0, 1], 'NT': [2]}, 'params_thorough': {'NT': [2, 3]},
- 'clauses': 'plan() [OP 0] / plan(tim,start,interval) [OP 1] of a new or an already planned timer (whose parameters may have changed) from every sorted pending list of <= 3 timers: scheduler clauses of C16 on the real (extracted) timer_manager, bounded: after every plan() the pending list is sorted by deadline and holds exactly the planned timers; '
+ 'unwind': 5, 'params': {'OP': [0, 1, 2], 'NT': [2]}, 'params_thorough': {'NT': [2, 3]},
+ 'clauses': 'unplan() of any timer from outside the manager [OP 2]: pending set, empty() and minimal_interval() follow; plan() [OP 0] / plan(tim,start,interval) [OP 1] of a new or an already planned timer (whose parameters may have changed) from every sorted pending list of <= 3 timers: scheduler clauses of C16 on the real (extracted) timer_manager, bounded: after every plan() the pending list is sorted by deadline and holds exactly the planned timers; '
             'during exec(now) a callback never runs before its deadline, callbacks run in non-decreasing deadline order, each firing of a timer is at exactly its previous deadline + interval '
             '(no drift, one firing per elapsed period), a timer that unplans itself in its callback does not fire again, an unplanned timer never fires; after exec no planned timer is due; '
             'empty() and minimal_interval() agree with the reference (time to the earliest pending deadline)',
@@ -89,18 +89,49 @@ void harness(void)
         tm[i]._start = start[i]; tm[i]._interval = interval[i]; g_was_planned[i] = 0;
     }
     __CPROVER_assume(cnt <= NT && who < NT && newstart >= -R && newstart <= R && newinterval >= 1 && newinterval <= R);
+#if OP == 2
+    /* the pre-state of the cancellation is produced by the manager's own plan() calls (any order of arrival): a state built by hand
+       could miss representation the manager keeps besides the list (caches), and a clause about unplan must not depend on that */
+    timer_manager_ctor(&mgr);
+    for (int p = 0; p < NT; p++) {
+        if (p >= cnt) break;
+        __CPROVER_assume(ord[p] < NT);
+        for (int q = 0; q < p; q++) __CPROVER_assume(ord[q] != ord[p]);
+        timer_manager_plan(&mgr, &tm[ord[p]]);
+        g_was_planned[ord[p]] = 1;
+    }
+#else
     build(cnt, ord);
+#endif
     check_list("pre");
 #if OP == 0
     /* the timer's parameters may have been changed since it was planned (set_start / set_interval, shift) */
     if (timer_head_is_planned(&tm[who])) { tm[who]._start = newstart; tm[who]._interval = newinterval; }
     timer_manager_plan(&mgr, &tm[who]);
-#else
+#elif OP == 1
     timer_manager_plan3(&mgr, &tm[who], newstart, newinterval);
     __CPROVER_assert(tm[who]._start == newstart && tm[who]._interval == newinterval, "plan(tim, start, interval) sets the parameters");
+#else
+    /* OP 2: a timer is cancelled from outside (timer_head::unplan unlinks it without telling the manager): the pending set, emptiness
+       and the time to the next deadline must follow */
+    timer_head_unplan(&tm[who]);
+    g_was_planned[who] = 0;
+    check_list("after unplan");
+    {
+        WIT(int64_t, now);
+        __CPROVER_assume(now >= -R && now <= R);
+        int64_t earliest = 0; int any = 0;
+        for (int i = 0; i < NT; i++)
+            if (g_was_planned[i] && (!any || tm[i]._start + tm[i]._interval < earliest)) { earliest = tm[i]._start + tm[i]._interval; any = 1; }
+        __CPROVER_assert(timer_manager_empty(&mgr) == !any, "after an unplan: empty() agrees with the reference");
+        if (any) __CPROVER_assert(timer_manager_minimal_interval(&mgr, now) == earliest - now, "after an unplan: time to the next deadline agrees with the reference");
+        __CPROVER_assert(!timer_head_is_planned(&tm[who]), "an unplanned timer is not planned");
+    }
 #endif
+#if OP != 2
     g_was_planned[who] = 1;
     check_list("after plan");
     __CPROVER_assert(!timer_manager_empty(&mgr), "not empty after a plan");
+#endif
     CANARY("timer manager plan end reachable");
 }
